@@ -37,13 +37,29 @@ RULE = ("every public method of tensor/sptensor/ktensor/ttensor/sumtensor/tenmat
         "operands (orders 1..4, singleton modes, F/C/strided layouts for constructor arguments). Every operation that "
         "takes a mode order, mode subset or mode split is swept over the identity, EVERY order/split that only relocates "
         "singleton modes (where the model predicts a view unless the code copies), layout-changing orders, and "
-        "size-preserving reshapes, with copy=True/False; every caller-supplied object is snapshotted bit for bit; "
+        "size-preserving reshapes, with copy=True/False; every caller-supplied object is snapshotted bit for bit. "
+        "Parameter corner cases where the general case computes new arrays but nothing is left to compute, for every "
+        "class: EMPTY mode selections of ttv / ttm / collapse (dims=[] or exclude_dims=all modes, with N multiplicands or "
+        "none, array and list), ttsv with the last mode skipped, already symmetric / partly symmetric / all-zero "
+        "receivers of symmetrize x every way of naming the groups x both versions (branch decided by a NumPy reference), "
+        "sparse receivers and operands WITHOUT nonzeros or with a single one for every unary, binary (either side, both), "
+        "scale (every factor kind), product and mask operation, dense receivers without nonzeros / all ones, the tensor "
+        "without modes, identity scalars (+0, *1, /1, **1), identity matrices, all-ones masks, single-element lists and "
+        "single-component Kruskal tensors, Kruskal tensors already in normal form / already symmetric, sum tensors with "
+        "parts without nonzeros, khatrirao of ONE matrix in every layout and 1-row / 1-column shape, helper functions on "
+        "empty / identical row sets and identity renumberings, algorithms that stop at once (maxiters 0 / 1, a tolerance met "
+        "by the first iteration, optimizers with no iteration, full ranks). Besides the array level (np.shares_memory, "
+        "write every element, both directions) every case is observed at OBJECT level: a returned pyttb object that IS an "
+        "operand object, and a write through the public __setitem__ of either side re-read through the other (holders "
+        "re-walked, so a rebound attribute counts - this is what makes an aliased tensor without nonzeros visible); "
         "non-trivial = the call succeeded and returned or changed at least one array; distinct = distinct case hash")
 ASSUMPTIONS = [
     "the classification of NumPy calls into view / fresh / in-place write used by the heap model (checked on every "
     "run by the 'numpy_prims' family against np.shares_memory, strides and contiguity flags)",
     "np.shares_memory is exact; writing every element of an array makes any shared cell visible",
     "callables passed by the caller (tenfun, elemfun, collapse, from_function) return new arrays",
+    "object identity and the objects' own __setitem__ are checked by the harness against the property text directly (the "
+    "heap model speaks about array cells; an object whose arrays have no cells is outside it)",
 ]
 TRUSTED_EXTRA = ["NumPy's own view / copy behaviour below the modelled primitives (exercised, not proved)"]
 EXHAUSTIVE = {"quick": False, "thorough": False}
@@ -205,8 +221,8 @@ def build(s):
     if t == "optimizer":
         from pyttb.gcp import optimizers as O
         if s["name"] == "LBFGSB":
-            return O.LBFGSB(maxiter=2)
-        return getattr(O, s["name"])(max_iters=1, epoch_iters=2, printitn=0)
+            return O.LBFGSB(maxiter=s.get("max_iters", 2))
+        return getattr(O, s["name"])(max_iters=s.get("max_iters", 1), epoch_iters=2, printitn=0)
     raise ValueError(f"spec {t}")
 
 
@@ -999,7 +1015,7 @@ def sptensor_cases(rng, tier):
     for si, shape in enumerate(shapes):
         N = len(shape)
         # receivers with several stored entries, with NONE (a tensor without nonzeros) and with a single one
-        for klass in (("some", "empty", "one") if (si < 2 or tier == "thorough") else ("some", "empty")):
+        for klass in (("some", "empty", "one") if si < (2 if tier == "quick" else 8) else ("some", "empty")):
             X = Sspec(rng, shape, klass)
             lab = klass
             for m in ("copy", "__pos__"):
@@ -1568,9 +1584,11 @@ def tenmat_cases(rng, tier):
                     out.append(case(C, m, f"{lb}/scalar", XR, [py(2.0)], {}, M(C, "arith", shape=[r, c])))
                 for m in ("__mul__", "__rmul__"):
                     out.append(case(C, m, f"{lb}/scalar", XR, [py(2.0)], {}, M(C, "arith", shape=[r, c])))
-                    out.append(case(C, m, f"{lb}/scalar-identity", XR, [py(1.0)], {}, M(C, "arith", shape=[r, c])))
-                for m in ("__add__", "__sub__", "__radd__"):
-                    out.append(case(C, m, f"{lb}/scalar-identity", XR, [py(0.0)], {}, M(C, "arith", shape=[r, c])))
+                    if dt == "f" and ki < 4:
+                        out.append(case(C, m, f"{lb}/scalar-identity", XR, [py(1.0)], {}, M(C, "arith", shape=[r, c])))
+                if dt == "f" and ki < 4:
+                    for m in ("__add__", "__sub__", "__radd__"):
+                        out.append(case(C, m, f"{lb}/scalar-identity", XR, [py(0.0)], {}, M(C, "arith", shape=[r, c])))
                 # product with the matricization that swaps rows and columns
                 ZR = {"t": "tenmat_raw", "data": arr([c, r], _mat_data(rng, c, r, dt), dt, "F"),
                       "rdims": cd, "cdims": rd, "tshape": shape}
@@ -1850,6 +1868,14 @@ def _alg_cases(rng, shape, tier):
                             _ainit(m, ["2.params.dimorder", "2.params.optdims"])))
         out.append(case("alg", "cp_als", f"{dn}/init/nofixsigns", None, [X, py(R)], dict(common, init=guess(), fixsigns=py(False)),
                         _ainit(m, [])))
+        # runs that stop at once (one iteration allowed / a tolerance met by the first iteration / no iteration at
+        # all / no mode to optimize): the result is (nearly) the initial guess and must still be a copy of it
+        out.append(case("alg", "cp_als", f"{dn}/init/maxiters=1", None, [X, py(R)], dict(common, init=guess(), maxiters=py(1)), _ainit(m, [])))
+        out.append(case("alg", "cp_als", f"{dn}/init/stops-at-once", None, [X, py(R)], dict(common, init=guess(), stoptol=py(10.0)),
+                        _ainit(m, [])))
+        out.append(case("alg", "cp_als", f"{dn}/init/maxiters=0", None, [X, py(R)], dict(common, init=guess(), maxiters=py(0)), _ainit(m, [])))
+        out.append(case("alg", "cp_als", f"{dn}/init/optdims-empty", None, [X, py(R)], dict(common, init=guess(), optdims=iarr([])),
+                        _ainit(m, ["2.params.optdims"])))
     if N >= 2:
         TT = TTspec(rng, shape)
         out.append(case("alg", "cp_als", "ttensor/init", None, [TT, py(R)], dict(common, init=guess(), optdims=iarr([N - 1])),
@@ -1870,6 +1896,12 @@ def _alg_cases(rng, shape, tier):
             out.append(case("alg", "cp_apr", f"{dn}/{algo}/init-zero-row", None, [X, py(R)], dict(kw, init=Kz), _ainit(m, [])))
             out.append(case("alg", "cp_apr", f"{dn}/{algo}/init-zero-row-last", None, [X, py(R)],
                             dict(kw, init=Kz2, precompinds=py(False), inexact=py(False), maxinneriters=py(3)), _ainit(m, [])))
+            out.append(case("alg", "cp_apr", f"{dn}/{algo}/init/stops-at-once", None, [X, py(R)],
+                            dict(kw, init=guess(), stoptol=py(1e9)), _ainit(m, [])))
+            out.append(case("alg", "cp_apr", f"{dn}/{algo}/init/maxiters=1", None, [X, py(R)],
+                            dict(kw, init=guess(), maxiters=py(1), maxinneriters=py(1)), _ainit(m, [])))
+            out.append(case("alg", "cp_apr", f"{dn}/{algo}/init/maxiters=0", None, [X, py(R)],
+                            dict(kw, init=guess(), maxiters=py(0)), _ainit(m, [])))
     # ---- gcp_opt -----------------------------------------------------------------------------
     obj = {"t": "objective", "name": "GAUSSIAN"}
     gk = {"printitn": py(0)}
@@ -1881,6 +1913,15 @@ def _alg_cases(rng, shape, tier):
             out.append(case("alg", "gcp_opt", f"{dn}/{on}/ktensor", None, [X, py(R), obj, opt], dict(gk, init=guess()), AF))
             out.append(case("alg", "gcp_opt", f"{dn}/{on}/list", None, [X, py(R), obj, opt],
                             dict(gk, init=lst([mat(rng, d, R) for d in shape])), AF))
+        # no optimization step at all: the result carries the initial guess and must still be a copy of it
+        for on in ("Adam", "SGD"):
+            opt0 = {"t": "optimizer", "name": on, "max_iters": 0}
+            out.append(case("alg", "gcp_opt", f"{dn}/{on}/ktensor/no-iterations", None, [X, py(R), obj, opt0], dict(gk, init=guess()), AF))
+            out.append(case("alg", "gcp_opt", f"{dn}/{on}/list/no-iterations", None, [X, py(R), obj, opt0],
+                            dict(gk, init=lst([mat(rng, d, R) for d in shape])), AF))
+        if dn == "tensor":
+            out.append(case("alg", "gcp_opt", f"{dn}/LBFGSB/ktensor/no-iterations", None,
+                            [X, py(R), obj, {"t": "optimizer", "name": "LBFGSB", "max_iters": 0}], dict(gk, init=guess()), AF))
         kinds = ["uniform"] if dn == "tensor" else ["stratified", "semistrat"]
         for kd in kinds:
             smp = {"t": "sampler", "data": X, "kind": kd}
@@ -1898,6 +1939,7 @@ def _alg_cases(rng, shape, tier):
     X = Tspec(rng, shape)
     rk = [min(2, d) for d in shape]
     tk = {"maxiters": py(2), "printitn": py(0)}
+    hk_ = {"verbosity": py(0)}
     out.append(case("alg", "tucker_als", "random", None, [X, py(rk)], dict(tk), AF))
     out.append(case("alg", "tucker_als", "rank-array", None, [X, iarr(rk)], dict(tk), AF))
     out.append(case("alg", "tucker_als", "nvecs", None, [X, iarr(rk)], dict(tk, init=py("nvecs")), AF))
@@ -1909,6 +1951,15 @@ def _alg_cases(rng, shape, tier):
         out.append(case("alg", "tucker_als", "random+dimorder", None, [X, py(rk)], dict(tk, dimorder=py(do)), AF))
     out.append(case("alg", "tucker_als", "init", None, [X, iarr(rk)], dict(tk, init=lst([mat(rng, d, r) for d, r in zip(shape, rk)])),
                     _ainit(1, [])))
+    U0 = lambda: lst([mat(rng, d, r) for d, r in zip(shape, rk)])  # noqa: E731
+    out.append(case("alg", "tucker_als", "init/maxiters=1", None, [X, iarr(rk)], dict(tk, init=U0(), maxiters=py(1)), _ainit(1, [])))
+    out.append(case("alg", "tucker_als", "init/stops-at-once", None, [X, iarr(rk)], dict(tk, init=U0(), stoptol=py(10.0)), _ainit(1, [])))
+    out.append(case("alg", "tucker_als", "init/maxiters=0", None, [X, iarr(rk)], dict(tk, init=U0(), maxiters=py(0)), _ainit(1, [])))
+    out.append(case("alg", "tucker_als", "init/full-ranks", None, [X, iarr(shape)],
+                    dict(tk, init=lst([mat(rng, d, d) for d in shape])), _ainit(1, [])))
+    out.append(case("alg", "hosvd", "full-ranks", None, [X, py(0.5)], dict(hk_, ranks=iarr(shape)), AF))
+    out.append(case("alg", "hosvd", "tol-tiny", None, [X, py(1e-12)], dict(hk_), AF))
+    out.append(case("alg", "hosvd", "zero-data", None, [Tzero(shape), py(0.5)], dict(hk_, ranks=iarr(rk)), AF))
     hk = {"verbosity": py(0)}
     out.append(case("alg", "hosvd", "tol", None, [X, py(0.5)], dict(hk), AF))
     out.append(case("alg", "hosvd", "tol/nonsequential", None, [X, py(0.1)], dict(hk, sequential=py(False)), AF))
@@ -2061,7 +2112,7 @@ def judge(c, obs, mod):
 
 class OpsFamily(Family):
     theorems = ("C05_no_visibility", "C05_pure_sound", "C05_fresh_sound", "C05_inplace_only", "C05_nocopy_within",
-                "C05_table_sound", "C05_table_semantics")
+                "C05_table_sound", "C05_table_semantics", "C05_fresh_corner_cases")
 
     def __init__(self, name, genfn, extra=()):
         self.name = name
@@ -2349,16 +2400,18 @@ class NumpyIdioms(Family):
         return out
 
 
-OPS = [OpsFamily("ops_tensor", tensor_cases), OpsFamily("ops_sptensor", sptensor_cases),
+OPS = [OpsFamily("ops_tensor", tensor_cases, ("C05_corner_cases_need_copy_example",)), OpsFamily("ops_sptensor", sptensor_cases),
        OpsFamily("ops_ktensor", ktensor_cases, ("C05_fresh_ktensor_ops", "C05_fresh_ktensor_more", "C05_inplace_only_ktensor")),
        OpsFamily("ops_ttensor", ttensor_cases, ("C05_static_compositional", "C05_call_pureFresh", "C05_fresh_ttensor_ops",
-                                                "C05_fresh_ttensor_products", "C05_fresh_ttensor_permute_reconstruct")),
+                                                "C05_fresh_ttensor_products", "C05_fresh_ttensor_permute_reconstruct",
+                                                "C05_fresh_empty_selection_composites")),
        OpsFamily("ops_sumtensor", sumtensor_cases, ("C05_static_compositional", "C05_call_pureFresh", "C05_fresh_sumtensor_ops",
-                                                    "C05_fresh_sumtensor_full", "C05_nocopy_sumtensor_ctor")),
+                                                    "C05_fresh_sumtensor_full", "C05_nocopy_sumtensor_ctor",
+                                                    "C05_fresh_empty_selection_composites")),
        OpsFamily("ops_tenmat", tenmat_cases, ("C05_fresh_tenmat_ctranspose", "C05_fresh_tenmat_ops", "C05_nocopy_tenmat_ctor",
                                               "C05_tenmat_to_tensor")),
        OpsFamily("ops_sptenmat", sptenmat_cases, ("C05_fresh_sptenmat_ops", "C05_nocopy_sptenmat_ctor")),
-       OpsFamily("ops_utils", utils_cases),
+       OpsFamily("ops_utils", utils_cases, ("C05_corner_cases_need_copy_example",)),
        OpsFamily("algorithms", alg_cases)]
 
 
